@@ -80,6 +80,9 @@ class Objective:
         if self.fail_at is not None and k == self.fail_at:
             raise self.exc
         terms = [T(v) for v in ys]
+        for (t2, z2) in self.calls:     # syntactically the same point: the same value, no new symbol
+            if len(t2) == len(terms) and all(a.get_id() == b.get_id() for a, b in zip(terms, t2)):
+                return z2
         z = self.ex.real('%s%d' % (self.name, len(self.calls)))
         for (t2, z2) in self.calls:
             if len(t2) == len(terms):
@@ -208,13 +211,13 @@ def use_queue_stub(on=True):
 # ----------------------------------------------------------------------------------------------
 # an arbitrary state satisfying the representation invariant (DESIGN.md section 5, `Inv`)
 def inv_state(ex, N, k, r=None, eps=None, iters_limit=None, real_queue=False, refine=False, listener=None,
-              recalc=None, md_inf=None, best=None):
+              recalc=None, md_inf=None, best=None, fail=None):
     """Real Solver with k evaluated trials at symbolic coordinates / values, symbolic M, r, counters.
     Returns (solver, problem, items, info)."""
     st = setup()
     mods = st['mods']
     use_queue_stub(not real_queue)
-    obj = Objective(ex)
+    obj = Objective(ex, fail_at=fail[0] if fail else None, exc=an.EXC_TYPES[fail[1]]() if fail else None)
     if r is None:
         r = ex.real('r')
         ex.assume(r.t > 1)
@@ -296,7 +299,7 @@ def step_job(N, k, want, real_queue=False, timeout_ms=30000, recalc=None, md_inf
             pass
         prove_all(ex, cl, only=want)
         return {'t': ti, 'k': k}
-    ex = Explorer(mode='ABSTRACT', name='STEP N=%d k=%d' % (N, k), timeout_ms=timeout_ms)
+    ex = Explorer(mode='ABSTRACT', name='STEP N=%d k=%d' % (N, k), timeout_ms=timeout_ms, wall_s=job_wall())
     ex.explore(h, sample_every=9)
     cfg = {'N': N, 'k': k, 'level': 'step', 'real_queue': real_queue, 'recalc': recalc, 'md_inf': md_inf, 'best': best}
     return summary(ex, 'one step from Inv: N=%d, %d evaluated trials, recalc=%s, accuracy_inf=%s, best=%s%s'
@@ -313,10 +316,10 @@ def exact_const(v):
 class PrefixObjective:
     """evaluations 0..kpre-1: a concrete function (value lifted exactly); later evaluations: arbitrary (symbolic)"""
 
-    def __init__(self, ex, seed, N, kpre, zrange=None, fail_at=None, exc=None):
+    def __init__(self, ex, seed, N, kpre, zrange=None, fail_at=None, exc=None, shared=None):
         self.f = an.prefix_function(seed, N)
         self.kpre = kpre
-        self.sym = Objective(ex)
+        self.sym = shared if shared is not None else Objective(ex)
         self.ex = ex
         self.zrange = zrange
         self.fail_at, self.exc = fail_at, exc
@@ -332,9 +335,18 @@ class PrefixObjective:
         return z
 
 
+def job_wall():
+    """wall-clock budget of one job (exceeding it makes the check inconclusive, never a pass)"""
+    d = 1500 if os.environ.get('VERIF_TIER', '') == 'thorough' or '--tier thorough' in ' '.join(sys.argv) else 420
+    return int(os.environ.get('VERIF_JOB_WALL', d))
+
+
 def exact_explorer(name, timeout_ms=30000, wall_s=None, max_paths=200000):
-    return Explorer(mode='EXACT', logic='QF_NRA', name=name, timeout_ms=timeout_ms, ratfun=True, scratch=True, wall_s=wall_s,
-                    max_paths=max_paths)
+    wall_s = wall_s or job_wall()
+    ex = Explorer(mode='EXACT', logic='QF_NRA', name=name, timeout_ms=timeout_ms, ratfun=True, scratch=True, wall_s=wall_s,
+                  max_paths=max_paths)
+    ex.injects_interrupts = True
+    return ex
 
 
 def scenario_job(cfg, want, extra=None, label=None, timeout_ms=30000):
@@ -441,3 +453,39 @@ def describe_stubs(run):
     run.stub('depq.DEPQ in the step checks and scenario runs -> QueueStub (unbounded max-priority queue, earliest-inserted among equals); '
              'the real DEPQ is executed in the "real_queue" scenarios and in C19')
     run.assume('floats are modelled as reals; concrete prefix values and r are lifted exactly')
+
+
+def compose_job(cfg, want, clauses, label=None, timeout_ms=30000):
+    """Several fresh solvers on the same objective (2-safety by self-composition); `clauses(mods, ctxs, want)` is a module-level
+    function of harness.agpnative (or of a harness module) so that the native replay can call it too."""
+    st = setup()
+    mods = st['mods']
+    use_queue_stub(not cfg.get('real_queue', False))
+    N = cfg['N']
+
+    def h(ex):
+        del PRINTS[:]
+        shared = Objective(ex)
+
+        def factory():
+            return PrefixObjective(ex, cfg.get('seed', 0), N, cfg.get('kpre', 0), zrange=cfg.get('zrange', 1000), shared=shared)
+        rr = exact_const(cfg['r'])
+        if cfg.get('eps') == 'sym':
+            eps = ex.real('eps')
+            ex.assume(z3.And(eps.t > 0, eps.t < 2))
+        else:
+            eps = cfg.get('eps', 1e-9)
+        ctxs = an.compose_run(mods, cfg, factory, rr, eps, prints=PRINTS)
+        cl = clauses(mods, ctxs, want)
+        ex.tag('compose')
+        for t in cfg.get('tags', ()):
+            ex.tag(t)
+        if any(isinstance(p[1], Sym) and p[1].const() is None for c in ctxs for p in c['prob'].done):
+            ex.tag('symbolic-values')
+        prove_all(ex, cl, only=want)
+        return [len(c['prob'].done) for c in ctxs]
+    name = label or 'compose N=%d r=%s f#%s kpre=%s' % (N, cfg['r'], cfg.get('seed'), cfg.get('kpre'))
+    ex = exact_explorer(name, timeout_ms=timeout_ms)
+    ex.explore(h, sample_every=17)
+    a = {'level': 'compose', 'cfg': cfg, 'N': N, 'clauses': (clauses.__module__, clauses.__name__)}
+    return summary(ex, name, {k: v for k, v in cfg.items() if k in ('N', 'r', 'seed', 'kpre', 'nsym', 'iters_limit', 'eps')}, a)
